@@ -202,6 +202,15 @@ func verifC14Life(k int) {
 				verifQuiesce()
 				verifAssert("C14.life.closes-right-after-the-answer-to-a-single-dns-query", !alive())
 				over = true
+			} else {
+				// any other reply leaves the association as it is: still there while its promised
+				// life lasts, for the next datagram of the client and the other targets' replies
+				// (a moment later, so that a deadline armed "now" by the reply has passed)
+				verifDeadlineTargets[0].setClock(time.Now())
+				verifQuiesce()
+				stillPromised := int(time.Now().UnixNano()) < promisedUntil
+				verifAssert("C14.life.other-replies-do-not-end-the-association|C04.life.other-replies-do-not-end-the-association", verifImplies(stillPromised, alive()))
+				verifReach("C14.life.reply-within-promised-life", stillPromised)
 			}
 		case 2: // time passes; what is left of the association?
 			if len(verifDeadlineTargets) != 1 {
